@@ -195,8 +195,12 @@ fn systematic(k: usize, n: usize, cfg: &EngineCfg, stats: &mut Stats) {
 }
 
 // (the last entries are letters whose Unicode case mappings are ASCII letters: ı -> I, ſ -> S, K (kelvin) -> k, ß -> SS, ﬁ -> FI)
-const OUTSIDE: [&str; 11] = ["`", "~", " ", "é", "я", "\u{131}", "\u{17f}", "\u{212a}", "\u{df}", "\u{fb01}", "\u{130}"];
-const OUTSIDE_Z85: [&str; 12] = ["`", "~", " ", "é", "\"", ",", ";", "я", "\u{131}", "\u{17f}", "\u{212a}", "\u{fb01}"];
+// (ASCII punctuation that none of base32 / base32hex / base64 writes - among it the URL-safe variants' `-` and `_` -
+// and non-ASCII letters, some of which case-map to ASCII letters)
+const OUTSIDE: [&str; 38] = [
+    "`", "~", " ", "é", "я", "\u{131}", "\u{17f}", "\u{212a}", "\u{df}", "\u{fb01}", "\u{130}", "-", "_", ".", ",", ":", "*", "!", "@", "#", "$", "%", "&", "(", ")", "[", "]", "{", "}", "<", ">", "?", "^", "|", "\\", "'", "\"", ";",
+];
+const OUTSIDE_Z85: [&str; 16] = ["`", "~", " ", "é", "\"", ",", ";", "я", "\u{131}", "\u{17f}", "\u{212a}", "\u{fb01}", "_", "'", "\\", "|"];
 
 pub fn case(ch: &mut Choices, ctx: &CaseCtx) -> CaseOut {
     let mut out = CaseOut::default();
